@@ -7,7 +7,7 @@
 /* Value& Value::operator=(Value&& v) noexcept : move; the source is left null */
 struct Value *_ZN4bloc5ValueaSEOS0_(struct Value *this, struct Value *v)
 __CPROVER_requires(__exc == 0)
-__CPROVER_assigns(*this, v->_flags)
+__CPROVER_assigns(VALUE_FIELDS(this), v->_flags)
 __CPROVER_ensures(__exc == 0)
 __CPROVER_ensures(PTR_EQ(__CPROVER_return_value, this))
 __CPROVER_ensures(this != v ==> (this->_flags == __CPROVER_old(v->_flags) && V_MAJOR(this) == __CPROVER_old(V_MAJOR(v)) &&
@@ -32,15 +32,30 @@ __CPROVER_requires(__exc == 0)
 __CPROVER_assigns(v->_flags)
 __CPROVER_ensures(__exc == 0)
 __CPROVER_ensures(IS_FRESH(__CPROVER_return_value, sizeof(struct Value)))
-__CPROVER_ensures(__CPROVER_return_value->_flags == __CPROVER_old(v->_flags) && V_MAJOR(__CPROVER_return_value) == __CPROVER_old(V_MAJOR(v)) &&
-                  V_MINOR(__CPROVER_return_value) == __CPROVER_old(V_MINOR(v)) && V_LEVEL(__CPROVER_return_value) == __CPROVER_old(V_LEVEL(v)) &&
-                  __CPROVER_return_value->_value.i == __CPROVER_old(v->_value.i))
+__CPROVER_ensures(SET_EQ(__CPROVER_return_value->_value.i, __CPROVER_old(v->_value.i)) && SET_EQ(__CPROVER_return_value->_flags, __CPROVER_old(v->_flags)) &&
+                  SET_EQ(V_MAJOR(__CPROVER_return_value), __CPROVER_old(V_MAJOR(v))) && SET_EQ(V_MINOR(__CPROVER_return_value), __CPROVER_old(V_MINOR(v))) &&
+                  SET_EQ(V_LEVEL(__CPROVER_return_value), __CPROVER_old(V_LEVEL(v))))
 __CPROVER_ensures(v->_flags == 0)
+;
+
+/* Value::Value(Imaginary * v) : takes ownership of v (null pointer => typed null) */
+struct Imaginary;
+void _ZN4bloc5ValueC1EPNS_9ImaginaryE(struct Value *this, struct Imaginary *v)
+__CPROVER_requires(__exc == 0)
+__CPROVER_assigns(VALUE_FIELDS(this))
+__CPROVER_ensures(__exc == 0 && V_IS(this, IMAGINARY) && V_MINOR(this) == 0)
+__CPROVER_ensures(v != 0 ==> (this->_flags == F_NOTNULL && PTR_EQ(this->_value.p, v)))
+__CPROVER_ensures(v == 0 ==> this->_flags == 0)
 ;
 
 /* RuntimeError::RuntimeError(EXC_RT no) -- message strings are dropped (DESIGN 2.2 item 4) */
 void _ZN4bloc12RuntimeErrorC1ENS_6EXC_RTE(struct RuntimeError *this, unsigned int no)
 {
+  this->no = no;
+}
+void _ZN4bloc12RuntimeErrorC1ENS_6EXC_RTEPKc(struct RuntimeError *this, unsigned int no, const char *arg)
+{
+  (void)arg;
   this->no = no;
 }
 #endif
